@@ -194,13 +194,50 @@ def stepProcess (s : St) (mtype : Int) (t : Nat) : St × Out :=
     | (s', none) => (s', {})
   else (s, {})
 
-def stepOp (max : Nat) (s : St) : Op → St × Out
+/-! ### the Kafka transport (scales/kafka/sink.py : KafkaTransportSink)
+
+  Same base class, same tag pool, tag map, send loop and `_HandleTimeout`.  Differences:
+  `_OnTimeout` is `pass` (Kafka has no discard message: the tag stays leased until the broker
+  answers); `_CheckInitialConnection` is a no-op and there is no ping; the tag travels as the
+  int32 correlation id of the request header; `_ProcessReply` reads the correlation id of a
+  reply and hands *every* reply to `_ProcessTaggedReply` (no reserved values on the way in). -/
+
+/-- which concrete transport sink -/
+inductive Flavour where
+  | thriftmux | kafka
+  deriving Repr, DecidableEq, Inhabited
+
+/-- `timeout_proc` with Kafka's `_OnTimeout`: the key is popped, nothing is queued -/
+def stepNotifyKafka (s : St) (rid : Nat) : St × Out :=
+  match s.reqs[rid]? with
+  | some r =>
+    if r.ev = .fired ∧ r.sub = true then
+      ({ s with reqs := s.reqs.set rid { r with sub := false, key := .absent } }, {})
+    else (s, { res := .badop })
+  | none => (s, { res := .badop })
+
+/-- `KafkaTransportSink._ProcessReply`: `_ProcessTaggedReply(correlation id)`, whatever the id -/
+def stepProcessKafka (s : St) (t : Nat) : St × Out :=
+  match releaseTag s t with
+  | (s', some rid) => ({ s' with reqs := setKey s'.reqs rid .answered }, { delivered := [rid] })
+  | (s', none) => (s', {})
+
+def stepOp (fl : Flavour) (max : Nat) (s : St) : Op → St × Out
   | .req e popped => stepReq max s e popped
   | .fire rid => stepFire s rid
   | .send => stepSend s
-  | .notify rid => stepNotify s rid
-  | .process mt t => stepProcess s mt t
-  | .ping => ({ s with sendq := s.sendq ++ [.ping] }, {})
+  | .notify rid =>
+    match fl with
+    | .thriftmux => stepNotify s rid
+    | .kafka => stepNotifyKafka s rid
+  | .process mt t =>
+    match fl with
+    | .thriftmux => stepProcess s mt t
+    | .kafka => stepProcessKafka s t
+  | .ping =>
+    match fl with
+    | .thriftmux => ({ s with sendq := s.sendq ++ [.ping] }, {})
+    | .kafka => (s, { res := .badop })          -- the Kafka sink has no ping
   | .reopen => (St.init, {})
 
 /-! ### the code as found, before the repairs
@@ -238,11 +275,11 @@ def stepSendF6b (s : St) : St × Out :=
 def stepOpUnrepaired (max : Nat) (s : St) : Op → St × Out
   | .process mt t => stepProcessF6 s mt t
   | .send => stepSendF6b s
-  | op => stepOp max s op
+  | op => stepOp .thriftmux max s op
 
 /-- the transport with `_ReleaseTag` repaired only -/
 def stepOpF6bOnly (max : Nat) (s : St) : Op → St × Out
   | .send => stepSendF6b s
-  | op => stepOp max s op
+  | op => stepOp .thriftmux max s op
 
 end Scales.TagPool
